@@ -52,12 +52,13 @@ def _code_of(table, name):
     raise KeyError(name)
 
 
-def _within_half_step_clamped(k, j, lo, hi, scale):
-    """k (in units of 1/scale degC) is the clamp to [lo,hi] of a value within half a step of j/20 degC.
-    In integers: |20*k - scale*j| <= 10 unless clamped."""
-    a = k * 20
+def _within_half_step_clamped(k, j, lo, hi, scale, D=20):
+    """k (in units of 1/scale degC) is the clamp to [lo,hi] of a value within half a step of j/D degC.
+    In integers: |D*k - scale*j| <= D/2 unless clamped."""
+    a = k * D
     b = j * scale
-    return sym_and(k >= lo, k <= hi, sym_implies(k > lo, a - b <= 10), sym_implies(k < hi, b - a <= 10))
+    h = D // 2
+    return sym_and(k >= lo, k <= hi, sym_implies(k > lo, a - b <= h), sym_implies(k < hi, b - a <= h))
 
 
 def run(ctx, p):
@@ -154,7 +155,7 @@ def _meaning(ctx, gen, call, data, env, args, a, z):
             if call == "ac_temp":
                 lo, hi = env["limits"]
                 return sym_and(*base, keep_power, keep_mode, keep_fan, c["sp_type"] == 1,
-                               _within_half_step_clamped(c["sp_value"], args["j"], lo, hi, 1))
+                               _within_half_step_clamped(c["sp_value"], args["j"], lo, hi, 1, args["D"]))
         else:
             if len(data) != 4:
                 return False
@@ -168,7 +169,8 @@ def _meaning(ctx, gen, call, data, env, args, a, z):
                                keep_setting, keep_method)
             if call == "zone_temp":
                 k = c["value"]
-                return sym_and(*base, keep_power, c["setting_code"] == 5, c["method_code"] == 3, k * 20 - args["j"] <= 10, args["j"] - k * 20 <= 10)
+                D = args["D"]
+                return sym_and(*base, keep_power, c["setting_code"] == 5, c["method_code"] == 3, k * D - args["j"] <= D // 2, args["j"] - k * D <= D // 2)
             if call == "zone_damper":
                 return sym_and(*base, keep_power, c["setting_code"] == 4, c["method_code"] == 2, c["value"] == args["pct"])
     else:
@@ -200,8 +202,7 @@ def _meaning(ctx, gen, call, data, env, args, a, z):
                 hi = sym_ite(mc == 1, hh, sym_ite(mc == 4, hc, sym_ite(hh >= hc, hh, hc)))
                 K = c["sp_value"] + 100         # tenths of a degree: "Data to be sent = (setpoint * 10) - 100"
                 return sym_and(*base, keep_power, keep_mode, keep_fan, c["sp_control"] == 0x40,
-                               _within_half_step_clamped(K, args["j"], lo * 10, hi * 10, 10) if False else
-                               _half_step_tenths(K, args["j"], lo * 10, hi * 10))
+                               _within_half_step_clamped(K, args["j"], lo * 10, hi * 10, 10, args["D"]))
         else:
             c = r5.zone_control_record(rec)
             base = [hdr_ok, h["sub_type"] == 0x20, c["zone_number"] == z, c["pad"] == 0, c["type_code"] == 0]
@@ -212,7 +213,8 @@ def _meaning(ctx, gen, call, data, env, args, a, z):
                                keep_setting)
             if call == "zone_temp":
                 K = c["value"] + 100
-                return sym_and(*base, keep_power, c["setting_code"] == 5, K * 2 - args["j"] <= 1, args["j"] - K * 2 <= 1)
+                D = args["D"]
+                return sym_and(*base, keep_power, c["setting_code"] == 5, K * D - args["j"] * 10 <= D // 2, args["j"] * 10 - K * D <= D // 2)
             if call == "zone_damper":
                 return sym_and(*base, keep_power, c["setting_code"] == 4, c["value"] == args["pct"])
     return False
